@@ -99,3 +99,451 @@ M('c15-build-effect-before-delegate', 'C15', 'R15.1', [(FB,
   "        return FileBuilder.build_versioned(\n            cache_filename, build_name, {}, func, *args, **kwargs)",
   "        os.makedirs(os.path.dirname(os.path.abspath(cache_filename)), exist_ok=True)\n"
   "        return FileBuilder.build_versioned(\n            cache_filename, build_name, {}, func, *args, **kwargs)")])
+
+# ---- C06 / guards --------------------------------------------------------
+GUARD_PROPS = ['C01']
+M('g-drop-version-nested-sub', ['C01', 'C06'], ['R1.4', 'R6.1'], [(FB,
+  "        if (not JsonUtil.is_equal(\n"
+  "                self._old_cache.get_func_version(operation.func_name),\n"
+  "                self._new_cache.get_func_version(operation.func_name)) or\n\n"
+  "                # If setup failed, then the conditions that gave rise to the\n"
+  "                # failure might no longer hold. See SetupFailedTest for an\n"
+  "                # example.\n"
+  "                operation.setup_failed):",
+  "        if (operation.setup_failed):")])
+M('g-version-raw-eq-top-sub', ['C01', 'C06'], ['R1.4', 'R6.1'], [(FB,
+  "        if (cached_operation is not None and not cached_operation.raised and\n"
+  "                JsonUtil.is_equal(\n"
+  "                    self._old_cache.get_func_version(operation.func_name),\n"
+  "                    self._new_cache.get_func_version(operation.func_name)) and\n"
+  "                self._are_suboperations_cached(\n"
+  "                    cached_operation, CreatedFiles())):",
+  "        if (cached_operation is not None and not cached_operation.raised and\n"
+  "                self._old_cache.get_func_version(operation.func_name) ==\n"
+  "                self._new_cache.get_func_version(operation.func_name) and\n"
+  "                self._are_suboperations_cached(\n"
+  "                    cached_operation, CreatedFiles())):")],
+  'versions compared with == (True == 1)')
+M('g-version-same-cache', ['C01', 'C06'], ['R1.4', 'R6.1'], [(FB,
+  "                JsonUtil.is_equal(\n"
+  "                    self._old_cache.get_func_version(operation.func_name),\n"
+  "                    self._new_cache.get_func_version(operation.func_name)) and\n"
+  "                JsonUtil.is_equal(cached_operation.args, operation.args) and",
+  "                JsonUtil.is_equal(\n"
+  "                    self._new_cache.get_func_version(operation.func_name),\n"
+  "                    self._new_cache.get_func_version(operation.func_name)) and\n"
+  "                JsonUtil.is_equal(cached_operation.args, operation.args) and")],
+  'compares the new version with itself')
+M('g-opversion-drop', ['C01', 'C06', 'C13'], ['R1.4', 'R6.3', 'R13.4'], [(FB,
+  "        if (not JsonUtil.is_equal(\n"
+  "                self._old_cache.get_operation_version(name),\n"
+  "                self._new_cache.get_operation_version(name)) or\n\n"
+  "                # In case future releases of FileBuilder add new operations\n"
+  "                name not in SimpleOperationExecutor.OPERATIONS):",
+  "        if (name not in SimpleOperationExecutor.OPERATIONS):")])
+M('g-drop-output-intact-top', ['C01', 'C05', 'C13'], ['R1.4', 'R5.6', 'R13.4'], [(FB,
+  "                self._is_build_file_cached(cached_operation) and\n"
+  "                self._are_suboperations_cached(\n"
+  "                    cached_operation, CreatedFiles())):\n"
+  "            return cached_operation",
+  "                self._are_suboperations_cached(\n"
+  "                    cached_operation, CreatedFiles())):\n"
+  "            return cached_operation")])
+M('g-drop-exc-eq', ['C01', 'C05', 'C13'], ['R1.4', 'R5.5', 'R13.4'], [(FB,
+  "        return (\n"
+  "            JsonUtil.is_equal(return_value, operation.return_value) and\n"
+  "            exception_type_str == operation.exception_type_str)",
+  "        return (\n"
+  "            JsonUtil.is_equal(return_value, operation.return_value))")])
+M('g-drop-args-eq', ['C01', 'C07'], ['R1.4', 'R7.4'], [(FB,
+  "                JsonUtil.is_equal(cached_operation.args, operation.args) and\n", "")])
+M('g-funcname-dropped', ['C01', 'C07'], ['R1.4', 'R7.4'], [(FB,
+  "                cached_operation.func_name == operation.func_name and\n", "")])
+M('g-serve-raised-top', ['C01', 'C05'], ['R1.4', 'R5.2'], [(FB,
+  "        if (cached_operation is not None and not cached_operation.raised and\n"
+  "                cached_operation.func_name == operation.func_name and",
+  "        if (cached_operation is not None and\n"
+  "                cached_operation.func_name == operation.func_name and")])
+M('g-key-free-dropped', ['C01', 'C08'], ['R1.4', 'R8.4'], [(FB,
+  "        if self._new_cache.has_subbuild(subbuild_key):\n            return False\n", "")])
+M('g-setup-failed-dropped', ['C01', 'C08', 'C14'], ['R1.4', 'R8.5', 'R14.5'], [(FB,
+  "                (not operation.raised and\n"
+  "                    not self._is_build_file_cached(operation)) or\n\n"
+  "                # If setup failed, then the conditions that gave rise to the\n"
+  "                # failure might no longer hold. See SetupFailedTest for\n"
+  "                # examples.\n"
+  "                operation.setup_failed):",
+  "                (not operation.raised and\n"
+  "                    not self._is_build_file_cached(operation))):")])
+M('g-replay-dropped-top-file', ['C01', 'C05'], ['R1.4', 'R5.2'], [(FB,
+  "                self._is_build_file_cached(cached_operation) and\n"
+  "                self._are_suboperations_cached(\n"
+  "                    cached_operation, CreatedFiles())):\n"
+  "            return cached_operation",
+  "                self._is_build_file_cached(cached_operation)):\n"
+  "            return cached_operation")])
+
+# ---- C01 -------------------------------------------------------------------
+M('c01-append-only-on-success', ['C01', 'C17'], ['R1.2', 'R17.4'], [(FB,
+  "        except OSError as exception:\n"
+  "            operation.exception_type_str = exception.__class__.__name__\n"
+  "            raise\n"
+  "        finally:\n"
+  "            operation.is_finished = True\n"
+  "            self._append_suboperation(operation)\n",
+  "        except OSError as exception:\n"
+  "            operation.exception_type_str = exception.__class__.__name__\n"
+  "            raise\n"
+  "        operation.is_finished = True\n"
+  "        self._append_suboperation(operation)\n")],
+  'a failing query is no longer recorded')
+M('c01-unrecorded-probe', 'C01', 'R1.2', [(FB,
+  "        return self._exec_simple_operation(\n"
+  "            SimpleOperation(\n"
+  "                'exists', [FileBuilder._sanitize_filename(filename)]))",
+  "        filename = FileBuilder._sanitize_filename(filename)\n"
+  "        if self._simple_operation_executor.is_cache_file(filename):\n"
+  "            return False\n"
+  "        if not os.path.lexists(filename):\n"
+  "            return False\n"
+  "        return self._exec_simple_operation(\n"
+  "            SimpleOperation('exists', [filename]))")],
+  'fast path that observes the real FS without recording')
+M('c01-operations-missing-name', ['C01', 'C05'], ['R1.1', 'R5.5'], [(EX,
+  "        'exists', 'get_size', 'is_dir', 'is_file', 'list_dir', 'read', 'walk'",
+  "        'exists', 'is_dir', 'is_file', 'list_dir', 'read', 'walk'")])
+M('c01-replay-ignores-false', 'C01', 'R1.3', [(FB,
+  "                if not self._is_subbuild_operation_cached(\n"
+  "                        suboperation, created_files):\n"
+  "                    return False",
+  "                if not self._is_subbuild_operation_cached(\n"
+  "                        suboperation, created_files):\n"
+  "                    continue")])
+M('c01-reuse-without-register', ['C01', 'C08'], ['R1.5', 'R8.3'], [(FB,
+  "            with self._lock:\n"
+  "                operation.is_finished = True\n"
+  "            self._new_cache.use_cached_operation(operation)\n"
+  "        else:\n"
+  "            description",
+  "            with self._lock:\n"
+  "                operation.is_finished = True\n"
+  "        else:\n"
+  "            description")])
+M('c01-reuse-without-apply', 'C01', 'R1.5', [(FB,
+  "        self._apply_cached_suboperations(cached_operation)\n"
+  "        operation.file_comparison_result = file_comparison_result",
+  "        operation.file_comparison_result = file_comparison_result")])
+M('c01-commit-skipped-on-empty', 'C01', 'R1.6', [(FB,
+  "        self._commit(norm_cased_error_created_dirs)\n        return return_value",
+  "        if norm_cased_error_created_dirs:\n"
+  "            self._commit(norm_cased_error_created_dirs)\n        return return_value")])
+M('c01-writer-renames-key', ['C01', 'C16'], ['R1.7', 'R16.1'], [(CA,
+  "            'returnValue': operation.return_value,\n            'suboperations': suboperations_json,",
+  "            'result': operation.return_value,\n            'suboperations': suboperations_json,")])
+
+# ---- C02 -------------------------------------------------------------------
+M('c02-handler-wraps-exception', ['C02', 'C10'], ['R2.2', 'R10.2'], [(FB,
+  "        except Exception:\n            self._handle_error_building_file()\n            raise\n",
+  "        except Exception as exception:\n            self._handle_error_building_file()\n"
+  "            raise RuntimeError('build_file failed') from exception\n")])
+M('c02-func-inside-typeerror-try', 'C02', 'R2.2', [(FB,
+  "        return_value = func(*args, **kwargs)\n        try:\n            return JsonUtil.sanitize(return_value)",
+  "        try:\n            return_value = func(*args, **kwargs)\n            return JsonUtil.sanitize(return_value)")])
+M('c02-create-dirs-propagates', ['C02', 'C03'], ['R2.3', 'R3.5'], [(FB,
+  "            try:\n                os.mkdir(dir_)\n            except OSError:\n"
+  "                if not os.path.isdir(dir_):\n"
+  "                    logger.error(\n"
+  "                        'Failed to create directory {:s}'.format(dir_),\n"
+  "                        exc_info=True)\n                continue\n",
+  "            if os.path.isdir(dir_):\n                continue\n            os.mkdir(dir_)\n")])
+M('c02-no-backup-before-rebuild', ['C02', 'C03'], ['R2.4', 'R3.5'], [(FB,
+  "            if (os.path.isfile(filename) and\n"
+  "                    self._backups.back_up_and_remove(filename)):\n"
+  "                logger.info(\n"
+  "                    'Moved {:s} to a temporary directory, in preparation for '\n"
+  "                    'rebuilding the file'.format(filename))\n", "")])
+M('c02-backups-copy', ['C02', 'C03'], ['R2.6', 'R3.5'], [(BK,
+  "            os.rename(filename, backup_filename)",
+  "            shutil.copy2(filename, backup_filename)\n            os.remove(filename)")])
+M('c02-rollback-forgets-error-dirs', 'C02', 'R2.8', [(FB,
+  "        dirs_to_remove.update(self._build_dirs.norm_cased_error_created_dirs())\n"
+  "        for dir_ in self._old_cache.created_dirs():\n"
+  "            dirs_to_remove.discard(os.path.normcase(dir_))\n\n"
+  "        for filename in self._new_cache.created_files():",
+  "        for dir_ in self._old_cache.created_dirs():\n"
+  "            dirs_to_remove.discard(os.path.normcase(dir_))\n\n"
+  "        for filename in self._new_cache.created_files():")])
+M('c02-no-compensation', ['C02', 'C14', 'C16'], ['R2.9', 'R14.2', 'R16.4'], [(FB,
+  "            if started_writing_cache:\n"
+  "                # Don't leave a partially written cache file behind. (The old\n"
+  "                # cache file, if any, is in _backups at this point.)\n"
+  "                FileBuilder._try_to_remove_file(cache_filename)\n", "")])
+M('c02-write-outside-try', ['C02', 'C14'], ['R2.1', 'R14.2'], [(FB,
+  "            self._new_cache.write(cache_filename)\n"
+  "            logger.info('Wrote cache file {:s}'.format(cache_filename))\n"
+  "        except Exception:\n"
+  "            self._is_finished_build = True\n"
+  "            if started_writing_cache:\n"
+  "                # Don't leave a partially written cache file behind. (The old\n"
+  "                # cache file, if any, is in _backups at this point.)\n"
+  "                FileBuilder._try_to_remove_file(cache_filename)\n"
+  "            self._roll_back(cache_file_created_dirs)\n"
+  "            raise\n",
+  "        except Exception:\n"
+  "            self._is_finished_build = True\n"
+  "            if started_writing_cache:\n"
+  "                FileBuilder._try_to_remove_file(cache_filename)\n"
+  "            self._roll_back(cache_file_created_dirs)\n"
+  "            raise\n"
+  "        self._new_cache.write(cache_filename)\n"
+  "        logger.info('Wrote cache file {:s}'.format(cache_filename))\n")])
+
+# ---- C03 -------------------------------------------------------------------
+M('c03-rmtree-in-make-room', 'C03', 'R3.1', [(FB,
+  "        try:\n            os.rmdir(dir_)\n        except OSError:\n"
+  "            # e.g. a subfile was created externally or in another thread\n",
+  "        try:\n            import shutil\n            shutil.rmtree(dir_)\n        except OSError:\n"
+  "            # e.g. a subfile was created externally or in another thread\n")])
+M('c03-make-dirs-moves-foreign-file', 'C03', 'R3.2', [(FB,
+  "                if (os.path.isfile(parent) and\n"
+  "                        self._old_cache.created_norm_cased_file(\n"
+  "                            os.path.normcase(parent)) and\n"
+  "                        self._backups.back_up_and_remove(parent)):",
+  "                if (os.path.isfile(parent) and\n"
+  "                        self._backups.back_up_and_remove(parent)):")])
+M('c03-commit-removes-listdir', 'C03', 'R3.2', [(FB,
+  "        dirs_to_remove = set(norm_cased_error_created_dirs)\n"
+  "        for dir_ in self._old_cache.created_dirs():",
+  "        dirs_to_remove = set(norm_cased_error_created_dirs)\n"
+  "        for dir_ in self._old_cache.created_dirs():\n"
+  "            if os.path.isdir(dir_):\n"
+  "                for name in os.listdir(dir_):\n"
+  "                    FileBuilder._try_to_remove_file(\n"
+  "                        os.path.join(dir_, name))\n"
+  "        for dir_ in self._old_cache.created_dirs():")])
+M('c03-remove-without-isfile', 'C03', 'R3.1', [(FB,
+  "        if os.path.isfile(filename):\n            try:\n                os.remove(filename)",
+  "        if os.path.lexists(filename):\n            try:\n                os.remove(filename)")])
+M('c03-commit-unguarded', ['C03'], 'R3.2', [(FB,
+  "            if (not self._simple_operation_executor.is_file(filename) and\n"
+  "                    not self._simple_operation_executor.is_cache_file(\n"
+  "                        filename)):\n"
+  "                FileBuilder._try_to_remove_file(filename)",
+  "            if not self._simple_operation_executor.is_cache_file(filename):\n"
+  "                FileBuilder._try_to_remove_file(filename)")])
+
+# ---- C04 -------------------------------------------------------------------
+M('c04-exists-file-only', 'C04', 'R4.1', [(EX,
+  "        return (\n            self.is_file(filename, created_files) or\n"
+  "            self.is_dir(filename, created_files))",
+  "        return self.is_file(filename, created_files)")])
+M('c04-second-kernel', 'C04', 'R4.2', [(EX,
+  "        self._assert_exists(filename, created_files)\n        return os.path.getsize(filename)",
+  "        if not os.path.exists(filename):\n            self._assert_exists(filename, created_files)\n"
+  "        return os.path.getsize(filename)")])
+M('c04-listing-unfiltered', 'C04', 'R4.3', [(EX,
+  "            if self.exists(absolute_subfile, created_files):\n                subfiles.append(subfile)",
+  "            subfiles.append(subfile)")])
+M('c04-error-class-unjustified', ['C04', 'C01'], ['R4.4', 'R1.8'], [(EX,
+  "        if not self.is_dir(filename, created_files):\n"
+  "            if self.is_file(filename, created_files):\n"
+  "                raise NotADirectoryError(",
+  "        if not self.is_dir(filename, created_files):\n"
+  "            if os.path.lexists(filename):\n"
+  "                raise NotADirectoryError(")])
+M('c04-stale-output-visible', 'C04', 'R4.5', [(EX,
+  "        elif self._old_cache.created_norm_cased_file(norm_cased_filename):\n            return False\n",
+  "")])
+
+# ---- C05 -------------------------------------------------------------------
+M('c05-unsorted-listing', 'C05', 'R5.1', [(EX,
+  "        return sorted(subfiles)", "        return subfiles")])
+M('c05-overlay-dropped-in-walk', 'C05', 'R5.4', [(EX,
+  "            elif self.is_dir(absolute_subfile, created_files):\n                subdirs.append(subfile)",
+  "            elif self.is_dir(absolute_subfile):\n                subdirs.append(subfile)")])
+M('c05-backup-before-reuse', 'C05', 'R5.3', [(FB,
+  "            if self._try_to_reuse_cached_file():\n                return operation.return_value\n\n"
+  "            if (os.path.isfile(filename) and\n"
+  "                    self._backups.back_up_and_remove(filename)):\n"
+  "                logger.info(\n"
+  "                    'Moved {:s} to a temporary directory, in preparation for '\n"
+  "                    'rebuilding the file'.format(filename))\n",
+  "            moved = (os.path.isfile(filename) and\n"
+  "                     self._backups.back_up_and_remove(filename))\n"
+  "            if self._try_to_reuse_cached_file():\n                return operation.return_value\n\n")])
+
+# ---- C07 -------------------------------------------------------------------
+M('c07-raw-path-open', ['C07'], 'R7.1', [(FB,
+  "    def read_text(self, filename, file_comparison=FileComparison.METADATA):",
+  "    def read_text(self, filename, file_comparison=FileComparison.METADATA,\n"
+  "                  _raw=None):"),
+  (FB,
+  "        filename = FileBuilder._sanitize_filename(filename)\n"
+  "        if not isinstance(file_comparison, FileComparison):\n"
+  "            raise TypeError(\n"
+  "                'file_comparison must be an instance of FileComparison')\n"
+  "        self._exec_simple_operation(\n"
+  "            SimpleOperation('read', [filename, file_comparison.name]))\n"
+  "        return open(filename, 'r')",
+  "        raw = filename\n"
+  "        filename = FileBuilder._sanitize_filename(filename)\n"
+  "        if not isinstance(file_comparison, FileComparison):\n"
+  "            raise TypeError(\n"
+  "                'file_comparison must be an instance of FileComparison')\n"
+  "        self._exec_simple_operation(\n"
+  "            SimpleOperation('read', [filename, file_comparison.name]))\n"
+  "        return open(raw, 'r')")])
+M('c07-key-without-kwargs', 'C07', 'R7.3', [(CA,
+  "        return JsonUtil.to_hashable([\n            operation.func_name, operation.args, operation.kwargs])",
+  "        return JsonUtil.to_hashable([\n            operation.func_name, operation.args])")])
+
+# ---- C08 / C09 / C17 -------------------------------------------------------
+M('c08-split-check-claim', ['C08'], 'R8.2', [(CA,
+  "        with self._files_lock:\n"
+  "            self._assert_doesnt_have_norm_cased_file(\n"
+  "                norm_cased_filename, filename)\n"
+  "            self._files[filename] = None\n"
+  "            self._norm_cased_files[norm_cased_filename] = None",
+  "        with self._files_lock:\n"
+  "            self._assert_doesnt_have_norm_cased_file(\n"
+  "                norm_cased_filename, filename)\n"
+  "        with self._files_lock:\n"
+  "            self._files[filename] = None\n"
+  "            self._norm_cased_files[norm_cased_filename] = None")])
+M('c08-claim-after-user', ['C08', 'C10'], ['R8.3', 'R10.1'], [(FB,
+  "            self._new_cache.start_building_file(filename)\n        except Exception:\n"
+  "            self._build_dirs.error_building_file(filename)\n            raise\n",
+  "        except Exception:\n"
+  "            self._build_dirs.error_building_file(filename)\n            raise\n")])
+M('c08-reader-registers-setup-failed', 'C08', 'R8.5', [(CA,
+  "            if not operation.setup_failed:\n                subbuild_key = Cache.subbuild_key(operation)\n"
+  "                subbuilds[subbuild_key] = operation\n            return operation",
+  "            subbuild_key = Cache.subbuild_key(operation)\n"
+  "            subbuilds[subbuild_key] = operation\n            return operation")])
+M('c09-lock-order', 'C09', 'R9.1', [(CA,
+  "        with self._files_lock, self._subbuilds_lock:\n            self._assert_no_repeats(operation)",
+  "        with self._subbuilds_lock, self._files_lock:\n            self._assert_no_repeats(operation)")])
+M('c09-hash-cache-unlocked', 'C09', 'R9.3', [(EX,
+  "        with self._hash_cache_lock:\n            cache_entry = self._hash_cache.get(norm_cased_filename)",
+  "        cache_entry = self._hash_cache.get(norm_cased_filename)")])
+M('c09-mutate-old-cache', 'C09', 'R9.4', [(FB,
+  "        with self._lock:\n            operation.is_finished = True\n"
+  "        self._new_cache.finish_building_file(operation)\n\n"
+  "        if self._old_cache.created_file(filename):",
+  "        with self._lock:\n            operation.is_finished = True\n"
+  "        self._old_cache.finish_building_file(operation)\n\n"
+  "        if self._old_cache.created_file(filename):")])
+M('c09-user-under-lock', 'C09', 'R9.2', [(FB,
+  "            try:\n                operation.return_value = self._call_and_sanitize_return_value(\n"
+  "                    func, [self] + copy.deepcopy(operation.args),\n"
+  "                    copy.deepcopy(operation.kwargs), description)\n",
+  "            try:\n                with self._lock:\n"
+  "                    operation.return_value = (\n"
+  "                        self._call_and_sanitize_return_value(\n"
+  "                            func, [self] + copy.deepcopy(operation.args),\n"
+  "                            copy.deepcopy(operation.kwargs), description))\n")])
+M('c17-no-fence-subbuild', 'C17', 'R17.1', [(FB,
+  "        self._assert_not_finished()\n        if not isinstance(func_name, str):\n"
+  "            raise TypeError('Function name must be a string')\n"
+  "        if not callable(func):\n            raise TypeError('\"func\" must be callable')\n"
+  "        sanitized_args, sanitized_kwargs = FileBuilder._sanitize_args(\n"
+  "            args, kwargs, 'the subbuild function {:s}'.format(func_name))",
+  "        if not isinstance(func_name, str):\n"
+  "            raise TypeError('Function name must be a string')\n"
+  "        if not callable(func):\n            raise TypeError('\"func\" must be callable')\n"
+  "        sanitized_args, sanitized_kwargs = FileBuilder._sanitize_args(\n"
+  "            args, kwargs, 'the subbuild function {:s}'.format(func_name))")])
+M('c17-close-unlocked', 'C17', 'R17.2', [(FB,
+  "            finally:\n                with self._lock:\n                    operation.is_finished = True\n",
+  "            finally:\n                operation.is_finished = True\n")])
+
+# ---- C10 / C14 -------------------------------------------------------------
+M('c10-handler-keeps-file', 'C10', 'R10.2', [(FB,
+  "        self._build_dirs.error_building_file(filename)\n"
+  "        FileBuilder._try_to_remove_file(filename)\n"
+  "        logger.warning(",
+  "        self._build_dirs.error_building_file(filename)\n"
+  "        logger.warning(")])
+M('c10-no-verification', 'C10', 'R10.1', [(FB,
+  "            if operation.file_comparison_result is None:\n"
+  "                raise RuntimeError(\n"
+  "                    \"The build_file* call for {:s} didn't create that \"\n"
+  "                    'file'.format(filename))\n", "")])
+M('c14-double-release', 'C14', 'R14.1', [(FB,
+  "            self._new_cache.start_building_file(filename)\n        except Exception:\n"
+  "            self._build_dirs.error_building_file(filename)\n            raise\n\n"
+  "        self._rebuild_file(func)\n        return operation.return_value",
+  "            self._new_cache.start_building_file(filename)\n"
+  "            self._rebuild_file(func)\n        except Exception:\n"
+  "            self._build_dirs.error_building_file(filename)\n            raise\n\n"
+  "        return operation.return_value")])
+M('c14-backup-unregistered', 'C14', 'R14.4', [(BK,
+  "        with self._lock:\n            self._backups.append((filename, backup_filename))\n        return True",
+  "        if value % 2 == 0:\n            with self._lock:\n"
+  "                self._backups.append((filename, backup_filename))\n        return True")])
+
+# ---- C12 / C13 / C16 / C18 ---------------------------------------------------
+M('c12-clean-mkdir', 'C12', 'R12.1', [(FB,
+  "        FileBuilder._try_to_remove_file(cache_filename)\n        FileBuilder._remove_empty_dirs(cache.created_dirs())",
+  "        FileBuilder._try_to_remove_file(cache_filename)\n"
+  "        FileBuilder._create_dirs([])\n"
+  "        FileBuilder._remove_empty_dirs(cache.created_dirs())")])
+M('c12-clean-keeps-cache-file', 'C12', 'R12.3', [(FB,
+  "        FileBuilder._try_to_remove_file(cache_filename)\n        FileBuilder._remove_empty_dirs(cache.created_dirs())",
+  "        if cache.created_files():\n            FileBuilder._try_to_remove_file(cache_filename)\n"
+  "        FileBuilder._remove_empty_dirs(cache.created_dirs())")])
+M('c12-created-dirs-not-persisted', 'C12', 'R12.4', [(FB,
+  "        self._new_cache.add_created_dirs(created_dirs)\n        return list(norm_cased_error_created_dirs)",
+  "        if norm_cased_error_created_dirs:\n            self._new_cache.add_created_dirs(created_dirs)\n"
+  "        return list(norm_cased_error_created_dirs)")])
+M('c12-dirs-shortest-first', 'C12', 'R12.5', [(FB,
+  "        sorted_dirs = sorted(dirs, key=lambda dir_: -len(dir_))",
+  "        sorted_dirs = sorted(dirs, key=lambda dir_: len(dir_))")])
+M('c13-float-mtime', 'C13', 'R13.2', [(EX,
+  "            'timeNs': stats.st_mtime_ns,", "            'timeNs': stats.st_mtime,")])
+M('c13-metadata-drops-size', 'C13', 'R13.2', [(EX,
+  "            'size': stats.st_size,\n", "")])
+M('c13-memo-hit-unguarded', 'C13', 'R13.3', [(EX,
+  "        if cache_entry is not None and cache_entry[1] == is_built:",
+  "        if cache_entry is not None:")])
+M('c13-integrity-wrong-mode', 'C13', 'R13.4', [(FB,
+  "            file_comparison_result = self._noneable_file_comparison_result(\n"
+  "                operation.filename, operation.file_comparison)\n"
+  "            return JsonUtil.is_equal(",
+  "            file_comparison_result = self._noneable_file_comparison_result(\n"
+  "                operation.filename, self._operation.file_comparison)\n"
+  "            return JsonUtil.is_equal(")])
+M('c16-drop-setup-failed-key', 'C16', 'R16.1', [(CA,
+  "        if operation.setup_failed:\n            operation_json['setupFailed'] = True\n", "")])
+M('c16-raised-default-true', 'C16', 'R16.1', [(CA,
+  "                operation_json['returnValue'],\n"
+  "                operation_json.get('raised', False),\n"
+  "                operation_json.get('setupFailed', False), True)\n\n"
+  "            if not operation.setup_failed:\n                subbuild_key",
+  "                operation_json['returnValue'],\n"
+  "                operation_json.get('raised', True),\n"
+  "                operation_json.get('setupFailed', False), True)\n\n"
+  "            if not operation.setup_failed:\n                subbuild_key")])
+M('c16-created-dirs-key-mismatch', ['C16', 'C12'], ['R16.2', 'R12.4b'], [(CA,
+  "            'createdDirs': created_dirs,", "            'dirs': created_dirs,")])
+M('c16-json-default', 'C16', 'R16.3', [(CA,
+  "                json.dumps(cache_json, separators=(',', ':'), sort_keys=True))",
+  "                json.dumps(cache_json, separators=(',', ':'), sort_keys=True,\n"
+  "                           default=str))")])
+M('c18-sanitize-passes-list', ['C18'], ['R18.1'], [(JU,
+  "        if (cls == str or cls == int or cls == float or cls == bool or\n                value is None):\n            return value",
+  "        if (cls == str or cls == int or cls == float or cls == bool or\n"
+  "                value is None or (cls == list and not value)):\n            return value")])
+M('c18-sanitize-passthrough-else', 'C18', 'R18.2', [(JU,
+  "        elif isinstance(value, float):\n            return float(value)\n"
+  "        else:\n            raise TypeError('The value is not a JSON value')",
+  "        elif isinstance(value, float):\n            return float(value)\n"
+  "        else:\n            return str(value)")])
+M('c18-to-hashable-no-bool', ['C18', 'C07'], ['R18.3', 'R7.6'], [(JU,
+  "        elif cls == bool:\n            # Booleans are special, because True == 1 and False == 0\n"
+  "            if value:\n                return (1,)\n            else:\n                return (2,)\n"
+  "        else:\n            return value",
+  "        else:\n            return value")])
+M('c18-is-equal-no-len', ['C18', 'C07'], ['R18.5', 'R7.6'], [(JU,
+  "            if ((class2 != list and class2 != tuple) or\n                    len(value1) != len(value2)):\n                return False",
+  "            if (class2 != list and class2 != tuple):\n                return False")])
